@@ -39,6 +39,7 @@ def histgen(rng, oids):
         delete_one=4, delete_many=1, find=0, count=0, distinct=0, create_index=12,
         drop_index=2, drop_indexes=1, drop=1), ttl=False)
     hg.ug.malformed = 0.02
+    hg.dollar_values = 0.03
     return hg
 
 
